@@ -496,6 +496,23 @@ impl Ctx {
     }
 }
 
+/// Table names of `len` characters on a database that has no `_Validation`
+/// table (there the container's 31-unit name limit is the only one).
+fn scenario_long_table_name_without_validation(len: usize) -> (u64, Vec<V>) {
+    let name: String = format!("T{}", "a".repeat(len - 1));
+    let mut c = Ctx::new(&format!("table-name-without-validation/{}", len), &name);
+    c.h = match Harness::open(crate::c09::seed_bytes("enc3")) {
+        Ok(h) => h,
+        Err(e) => return (0, vec![("table-name-without-validation:seed-refused".into(), e)]),
+    };
+    let op = Op::CreateTable { name: name.clone(), cols: vec![ColSpec::new("K", Ty::I16).key(), ColSpec::new("S", Ty::Str(0)).nullable()] };
+    if c.step_create(&op, len <= 31) {
+        c.step(&ins(&name, vec![vec![Val::Int(1), Val::s("x")]]), true, |m| m.push(vec![Val::Int(1), Val::s("x")]));
+        c.save_and_reopen(false);
+    }
+    (c.steps, c.out)
+}
+
 fn scenario_names(kind: usize, len: usize) -> (u64, Vec<V>) {
     match kind {
         0 => {
@@ -581,6 +598,9 @@ pub fn run(tier: Tier) -> i32 {
             let l = *l;
             jobs.push(Box::new(move || scenario_names(k, l)));
         }
+    }
+    for l in [31usize, 32, 33, 59, 60, 61, 62, 63, 64, 65] {
+        jobs.push(Box::new(move || scenario_long_table_name_without_validation(l)));
     }
     let results: Vec<(u64, Vec<V>)> = jobs.par_iter().map(|j| j()).collect();
     let mut steps = 0u64;
